@@ -152,9 +152,9 @@ def groupInt (e : Env) (g : Option Str) : Option Int :=
 /-- `XmlDuration._parse_interval(value)`; `none` = `ValueError` -/
 def parseInterval (e : Env) (value : Str) : Option TimeInterval :=
   if value.length < 3 || value.getLast? = some 'T' then none else
-  let (neg, s1) := match value with
-    | '-' :: r => (true, r)
-    | _ => (false, value)
+  -- `^([-]?)P`
+  let neg : Bool := value.head? == some '-'
+  let s1 := if neg then value.tail else value
   match s1 with
   | 'P' :: body =>
     match matchBody e body with
